@@ -66,6 +66,11 @@ class Canon:
         """returns a function valuation(tuple of bools) -> bool, registering leaves"""
         e = self._resolve(e)
         if isinstance(e, ast.BinOp) and isinstance(e.op, (ast.BitAnd, ast.BitOr, ast.BitXor)):
+            # (a << s) op (b << s)  ==  (a op b) << s   (shifting left commutes with the bitwise operators)
+            l_, r_ = self._resolve(e.left), self._resolve(e.right)
+            if isinstance(l_, ast.BinOp) and isinstance(l_.op, ast.LShift) and isinstance(r_, ast.BinOp) and \
+                    isinstance(r_.op, ast.LShift) and self.arith(l_.right) == self.arith(r_.right):
+                return self._bool_fn(ast.BinOp(left=ast.BinOp(left=l_.left, op=e.op, right=r_.left), op=ast.LShift(), right=l_.right), leaves)
             l, r = self._bool_fn(e.left, leaves), self._bool_fn(e.right, leaves)
             if isinstance(e.op, ast.BitAnd):
                 return lambda v: l(v) and r(v)
